@@ -254,7 +254,11 @@ SPollEnd(o, res, infl, timers) ==
       o4b == IF quiet /\ res = "pending" /\ o.unflushed > 0 /\ o.lastflush # "pending" /\ o.thrUnfl
               THEN Bad(o4, "C12", "refused request's throttle response left unflushed when the channel went idle", "") ELSE o4
       o5a == IF o.read.id >= 0 /\ ~o.read.dup /\ ~o.read.amb /\ res \in {"pending", "item", "end"}
-              THEN Bad(o4b, "C08", "request read but neither yielded, refused nor a duplicate", "") ELSE o4b
+              THEN LET b8 == Bad(o4b, "C08", "request read but neither yielded, refused nor a duplicate", "") IN
+                   IF o.limit >= 0 /\ o.read.omin >= o.limit
+                     THEN Bad(b8, "C12", "request read at the limit was neither handed over nor answered with a throttle error", "")
+                     ELSE b8
+              ELSE o4b
       \* the channel died (without any injected fault) while a request it had read at its limit was still unanswered
       o5 == IF quiet /\ res = "err" /\ o.read.id >= 0 /\ ~o.read.dup /\ o.limit >= 0 /\ o.read.omin >= o.limit
               THEN Bad(o5a, "C12", "refused request did not receive its throttle response", "") ELSE o5a
